@@ -134,6 +134,10 @@ func c10Sub(args []string) int {
 	g.Ir.DeclFunc("yl", s.yield)
 	g.Ir.DeclFunc("fin", s.fin)
 	g.Ir.DeclFunc("pcode", c10Pcode)
+	g.Ir.DeclFunc("yv", func(v int) int {
+		runtime.Gosched()
+		return v
+	})
 	g.Ir.DeclFunc("b2i", func(b bool) int {
 		if b {
 			return 1
